@@ -268,6 +268,9 @@ func (s *Solver) CheckFlat(assertions ...*Term) string {
 	if d > s.MaxQuery {
 		s.MaxQuery = d
 	}
+	if d > time.Second && os.Getenv("VF_DEBUG") != "" {
+		fmt.Fprintf(os.Stderr, "SLOW QUERY %.1fs result=%s assertions=%d fallback=%v last=%s\n", d.Seconds(), r, len(assertions), s.useAlt || s.Fallbacks > 0, dumpTerm(assertions[len(assertions)-1], 5))
+	}
 	return r
 }
 
